@@ -140,7 +140,7 @@ def run_c09(tier, seed):
 # ------------------------------------------------------------------------ C10
 def mutations(d, p, ns, rng):
     """data made non-conforming by one mutation"""
-    out = [None, True, 1, 2 ** 31, -2 ** 63 - 1, 1.5, "s", b"b", [], {}, [1, "a"], {"k": 1}, {1: 2}, (1, 2), ("x", 1), object]
+    out = [None, True, 1, 2 ** 31, -2 ** 63 - 1, 1.5, "s", b"b", [], {}, [1, "a"], {"k": 1}, {1: 2}, (1, 2), ("x", 1), (1, 2, 3), (), ("x",), object]
     if isinstance(d, dict):
         for k in list(d)[:3]:
             m = dict(d); del m[k]; out.append(m)
@@ -160,12 +160,55 @@ def mutations(d, p, ns, rng):
     return out
 
 
+def hint_nested(d, s, ns, o, wrong=False, top=True):
+    """a copy of conforming datum d in which every record value standing in a union position carries
+    a '-type' entry naming its branch (the branch SEL picks); `wrong`: name another thing instead"""
+    if isinstance(s, str) and s in ns:
+        return hint_nested(d, ns[s], ns, o, wrong, top)
+    if isinstance(s, list):
+        if isinstance(d, tuple):
+            return d
+        try:
+            i = select(s, ns, d, o)
+        except Exception:
+            return d
+        b = ns[s[i]] if isinstance(s[i], str) and s[i] in ns else s[i]
+        v = hint_nested(d, b, ns, o, wrong, False)
+        if isinstance(b, dict) and b.get("type") in ("record", "error") and isinstance(v, dict) and A.CONFORMS(d, b, ns, o):
+            v = dict(v)
+            v["-type"] = "no.such.Name" if wrong else b["name"]
+        return v
+    if isinstance(s, dict):
+        t = s.get("type")
+        if t in ("record", "error") and isinstance(d, dict):
+            out = dict(d)
+            for f in s["fields"]:
+                if f["name"] in d:
+                    out[f["name"]] = hint_nested(d[f["name"]], f["type"], ns, o, wrong, False)
+            return out
+        if t == "array" and isinstance(d, list):
+            return [hint_nested(x, s["items"], ns, o, wrong, False) for x in d]
+        if t == "map" and isinstance(d, dict):
+            return {k: hint_nested(x, s["values"], ns, o, wrong, False) for k, x in d.items()}
+    return d
+
+
+# records (with and without a namespace) standing in union positions below the top level: '-type' hints there
+NEST = [
+    {"type": "record", "name": "Outer", "fields": [{"name": "f", "type": ["null", RC]}, {"name": "g", "type": ["null", RA, RB], "default": None}]},
+    {"type": "record", "name": "o.Outer2", "fields": [{"name": "xs", "type": {"type": "array", "items": [RC, "string"]}},
+                                                        {"name": "m", "type": {"type": "map", "values": ["null", RA]}}]},
+    {"type": "record", "name": "Outer3", "fields": [{"name": "inner", "type": {"type": "record", "name": "Mid", "fields": [
+        {"name": "u", "type": [{"type": "record", "name": "Leaf", "fields": [{"name": "v", "type": "long"}]}, "null"]}]}}]},
+]
+
+
 def run_c10(tier, seed):
     res = Result("C10", tier, seed)
     rng = random.Random(seed)
     pool = list(gen.curated_schemas()) + list(gen.small_schemas(2 if tier == "quick" else 3, gen.PRIMS))
     us, holder = unions()
-    pool += us + [holder]
+    pool += us + [holder] + NEST
     for raw in pool:
         try:
             p, ns = SS.parse_top(raw)
@@ -177,6 +220,14 @@ def run_c10(tier, seed):
         cand = list(good)
         for d in good[:6]:
             cand += mutations(d, p, ns, rng)
+        for d in good[:10]:
+            for wrong in (False, True):
+                try:
+                    h = hint_nested(d, p, ns, {}, wrong)
+                except Exception:
+                    continue
+                if h != d:
+                    cand.append(h)
         if isinstance(p, list):
             cand += [(branch_name(b), d) for b in p for d in good[:4]] + [("nosuch", 1)]
         for strict in (False, True):
@@ -186,7 +237,7 @@ def run_c10(tier, seed):
                     if d is object:
                         d = object()
                     try:
-                        want = A.CONFORMS(d, p, ns, opts) and (not strict or _strict_ok(d, p, ns, opts))
+                        want = A.VALID(d, p, ns, opts)
                     except Exception:
                         continue
                     if _has_unrepresentable_float(d, p, ns):
@@ -270,6 +321,32 @@ def _strict_ok(d, s, ns, o):
         if t == "map" and isinstance(d, dict):
             return all(_strict_ok(x, s["values"], ns, o) for x in d.values())
     return True
+
+
+def _float_text_field(d, s, ns, depth=0):
+    """CONFORMS (the writers' view) float()-converts record field values of float/double type, so text such as
+    "NaN" is acceptable there; VALID (validate's view) does not -- the only intended difference"""
+    if depth > 8:
+        return False
+    if isinstance(s, str) and s in ns:
+        return _float_text_field(d, ns[s], ns, depth + 1)
+    if isinstance(s, list):
+        v = d[1] if isinstance(d, tuple) and len(d) == 2 else d
+        return any(_float_text_field(v, b, ns, depth + 1) for b in s)
+    if isinstance(s, dict):
+        t = s.get("type")
+        if t in ("record", "error") and isinstance(d, dict):
+            for f in s["fields"]:
+                v = A.RAWFIELDVAL(f, d)
+                if f["type"] in ("float", "double") and isinstance(v, (str, bool)):
+                    return True
+                if _float_text_field(v, f["type"], ns, depth + 1):
+                    return True
+        if t == "array" and isinstance(d, (list, tuple)):
+            return any(_float_text_field(x, s["items"], ns, depth + 1) for x in d)
+        if t == "map" and isinstance(d, dict):
+            return any(_float_text_field(x, s["values"], ns, depth + 1) for x in d.values())
+    return False
 
 
 def _has_unrepresentable_float(d, p, ns):
